@@ -4,7 +4,7 @@ World C: one real ClientSession against 1-3 scripted raw origins that may
 misbehave (surplus / unsolicited responses and fragments, early responses to
 uploads, truncation, close, reset, stall, FIN or junk while the connection
 idles in the pool; also well-behaved: interim 1xx responses before a later final response; HTTP/1.0 answers with or
-without keep-alive and 'Connection: close' followed by a lingering close; coded (deflate/gzip) bodies, well-formed or
+without keep-alive and 'Connection: close' - in any spelling the field grammar allows - followed by a lingering close; coded (deflate/gzip) bodies, well-formed or
 undecodable inside a complete framing), directly or through scripted forwarding proxies (absolute
 form and CONNECT tunnels) with per-request proxy credentials / TLS settings.
 Every response carries a marker (origin, connection, the request id it answers
@@ -82,6 +82,10 @@ RULE = (
     "complete framing (Content-Length reached / last chunk sent; 40 % ~0.7 kB bodies), the coded stream well-formed, cut "
     "short at a seeded point or with four bytes overwritten, the connection kept; the task's next request mostly goes to "
     "the same route 0-10 ms later. "
+    "In 10 % of the runs: spellings of the Connection field - a peer that says 'close' (HTTP/1.1 or 1.0) or 'keep-alive' "
+    "(HTTP/1.0) writes the token in lower / upper / title / mixed case, alone or in a list with 1-3 other tokens or empty "
+    "elements before / after it, with SP, HTAB or nothing around the commas and the field value, the field name in another "
+    "case, in 12 % of these the list split over two field lines; then lingering close / service as above. "
     "Non-trivial: a connection was reused at least once AND at least one misbehaviour or caller-side abnormal end fired."
 )
 COMPONENTS = {
@@ -158,6 +162,7 @@ def gen(rng, tier, index):
     _gen_interim(scn, random.Random(rng.getrandbits(64)))
     _gen_announced_end(scn, random.Random(rng.getrandbits(64)))
     _gen_coded(scn, random.Random(rng.getrandbits(64)))
+    _gen_conn_spelling(scn, random.Random(rng.getrandbits(64)))
     return scn
 
 
@@ -331,6 +336,81 @@ def _gen_coded(scn, rng):
                 nx["gap"] = rng.choice([0, 0, 0, 1, 3, 10])
 
 
+# how a peer may spell the Connection field (RFC 9110 5.3, 5.6.1, 7.6.1): a case-insensitive list of tokens, OWS = SP / HTAB
+# around the commas, empty elements, one or several field lines
+SP_OTHERS = ["TE", "TE", "te", "keep-alive", "X-Hop", "Trailer", ""]
+SP_SEPS = [", ", ", ", ",", ",\t", " , ", "\t,", ",\t ", " ,\t", "\t,\t", ",  "]
+SP_NAMES = ["Connection", "Connection", "connection", "CONNECTION"]
+
+
+def _gen_conn_spelling(scn, rng):
+    """(h) spellings of the Connection field: a peer that speaks of the connection's future (as in (f): 'close' from an
+    HTTP/1.1 or 1.0 origin, 'keep-alive' from an HTTP/1.0 one, then a lingering close / service as usual) writes the field
+    the way the grammar allows - the token in lower / upper / title / mixed case, alone or in a list with other tokens
+    before and after it ('TE, close', 'close, TE', 'keep-alive, close'), SP / HTAB / nothing around the commas, empty list
+    elements, OWS before and after the field value, the field name in another case, the list split over two field lines."""
+    if rng.random() >= 0.10:
+        return
+    nid = 1 + max(r["id"] for reqs in scn["tasks"] for r in reqs)
+    for reqs in scn["tasks"]:
+        i = 0
+        while i < len(reqs):
+            r = reqs[i]
+            i += 1
+            if r["beh"] == "stall" or r.get("up") or r.get("interim") or r.get("coded"):
+                continue
+            if not r.get("old"):
+                if rng.random() >= 0.6:
+                    continue
+                ver = rng.choice(["1.1", "1.1", "1.0"])
+                r["old"] = {"ver": ver, "conn": "close" if ver == "1.1" else rng.choice(["ka", "ka", "close"]),
+                            "status": rng.choice([200, 200, 200, 204, 304]), "linger": rng.choice([1, 3, 8, 30, 300])}
+                r["beh"], r["total"] = "ok", None
+                if rng.random() < 0.8:
+                    r["after"] = "read"
+            old = r["old"]
+            if old["conn"] is None:
+                old["conn"] = "close" if old["ver"] == "1.1" else rng.choice(["ka", "close"])
+            others = [rng.choice(SP_OTHERS) for _ in range(rng.choice([0, 1, 1, 1, 2, 2, 3]))]
+            old["sp"] = {"others": others, "pos": rng.randint(0, len(others)), "case": rng.choice(["lower", "lower", "upper", "title", "mixed"]),
+                         "seps": [rng.choice(SP_SEPS) for _ in others], "lead": rng.choice([" ", " ", " ", "", "\t", "  ", " \t"]),
+                         "trail": rng.choice(["", "", "", " ", "\t"]), "name": rng.choice(SP_NAMES),
+                         "lines": rng.randint(1, 3) if rng.random() < 0.12 else 0}
+            if i == len(reqs) and nid < 15 and rng.random() < 0.7:
+                reqs.append({"id": nid, "origin": r["origin"], "beh": "ok", "after": "read", "gap": 0, "post": False,
+                             "total": None})
+                nid += 1
+            if i < len(reqs) and rng.random() < 0.8:
+                nx = reqs[i]
+                nx["origin"] = r["origin"]
+                for f in ("via", "tls"):
+                    nx.pop(f, None)
+                    if f in r:
+                        nx[f] = dict(r[f])
+                nx["gap"] = max(0, rng.choice([0, 0, 0, 1, old["linger"] - 1, old["linger"] + 1]))
+
+
+def _connection_lines(conn, sp):
+    """the Connection field line(s) a peer writes for `conn` ('close' / 'ka') in the spelling `sp`:
+    [(field name, field value as on the wire incl. the OWS around it)]"""
+    main = {"close": "close", "ka": "keep-alive"}[conn]
+    main = {"lower": main, "upper": main.upper(), "title": main.title(),
+            "mixed": "".join(ch_.upper() if k % 2 else ch_ for k, ch_ in enumerate(main))}[sp["case"]]
+    pos = min(sp["pos"], len(sp["others"]))
+    tokens = list(sp["others"][:pos]) + [main] + list(sp["others"][pos:])
+    seps = sp["seps"] or [", "]
+    cut = min(sp["lines"], len(tokens) - 1) if sp["lines"] else 0
+    lines, val = [], ""
+    for j, t in enumerate(tokens):
+        if cut and j == cut:
+            lines.append(val)  # (the field line ends where a comma would stand)
+            val = t
+        else:
+            val += (seps[(j - 1) % len(seps)] if j else "") + t
+    lines = [(sp["name"].encode(), (sp["lead"] + v + sp["trail"]).encode()) for v in lines + [val]]
+    return lines
+
+
 _ENC = {"deflate": "d", "rawdeflate": "r", "gzip": "g"}
 _ENC_WBITS = {"deflate": 15, "rawdeflate": -15, "gzip": 31}
 
@@ -385,6 +465,19 @@ def shrink(scn):
                 for k, v in (("status", 200), ("linger", 8), ("conn", None), ("ver", "1.0")):
                     if old[k] != v:
                         yield dict(scn, tasks=ts[:ti] + [reqs[:i] + [dict(r, old=dict(old, **{k: v}))] + reqs[i + 1:]] + ts[ti + 1:])
+            sp = (old or {}).get("sp")
+            if sp:
+                yield dict(scn, tasks=ts[:ti] + [reqs[:i] + [dict(r, old={k: v for k, v in old.items() if k != "sp"})] + reqs[i + 1:]] + ts[ti + 1:])
+                for j in range(len(sp["others"])):
+                    sp2 = dict(sp, others=sp["others"][:j] + sp["others"][j + 1:], seps=sp["seps"][:j] + sp["seps"][j + 1:],
+                               pos=sp["pos"] - (1 if j < sp["pos"] else 0))
+                    yield dict(scn, tasks=ts[:ti] + [reqs[:i] + [dict(r, old=dict(old, sp=sp2))] + reqs[i + 1:]] + ts[ti + 1:])
+                for k, v in (("lines", 0), ("case", "lower"), ("lead", " "), ("trail", ""), ("name", "Connection")):
+                    if sp[k] != v:
+                        yield dict(scn, tasks=ts[:ti] + [reqs[:i] + [dict(r, old=dict(old, sp=dict(sp, **{k: v})))] + reqs[i + 1:]] + ts[ti + 1:])
+                for j, sep in enumerate(sp["seps"]):
+                    if sep != ", ":
+                        yield dict(scn, tasks=ts[:ti] + [reqs[:i] + [dict(r, old=dict(old, sp=dict(sp, seps=sp["seps"][:j] + [", "] + sp["seps"][j + 1:])))] + reqs[i + 1:]] + ts[ti + 1:])
             cod = r.get("coded")
             if cod:
                 for k, v in (("big", False), ("enc", "deflate"), ("dmg", "cut"), ("at", 500)):
@@ -443,6 +536,8 @@ def _run(scn, ch, log, connector_mod, BaseConn):
         msgs = {}  # serial -> what that message says: status, reason, headers, body
         conns = {}  # sim_conn id -> dict(origin, ssl, requests=[(reqid, step)], abnormal=[(kind, step)], out_len, ctr)
         probes = {"misbehaviour": 0, "reuse": 0, "abnormal_client": 0}
+
+        spelt = {r_["id"]: r_ for reqs_ in scn["tasks"] for r_ in reqs_}
 
         def on_connect(ctr, str_):
             cid = ctr.get_extra_info("sim_conn")
@@ -512,7 +607,9 @@ def _run(scn, ch, log, connector_mod, BaseConn):
                 c.waiting = []
 
             def respond(self, c, req_tag, kind, body=b"", chunked=False, extra_hdr=b"", declared=None, status=200,
-                        reason=b"OK", version=b"1.1", coded=None):
+                        reason=b"OK", version=b"1.1", coded=None, said=None):
+                # said: what the field lines in extra_hdr say (name, value) when they are not spelt 'Name: value'
+                said = [tuple(h.split(b": ", 1)) for h in extra_hdr.split(b"\r\n") if h] if said is None else said
                 serial[0] += 1
                 n = serial[0]
                 marker = b"X-M: o%d.c%d.q%s.n%d" % (c.oidx, c.cid, str(req_tag).encode(), n)
@@ -522,7 +619,7 @@ def _run(scn, ch, log, connector_mod, BaseConn):
                     # a response that has no body by definition: delimited by its head alone, no length announced
                     head, payload, body = line + marker + b"\r\n" + extra_hdr + b"\r\n", b"", b""
                     msgs[n] = {"status": status, "reason": reason.decode(), "body": b"", "size": len(head),
-                               "headers": [(b"X-M", marker[5:])] + [tuple(h.split(b": ", 1)) for h in extra_hdr.split(b"\r\n") if h]}
+                               "headers": [(b"X-M", marker[5:])] + said}
                     return n, head, payload
                 wire = body
                 if coded:
@@ -531,6 +628,7 @@ def _run(scn, ch, log, connector_mod, BaseConn):
                         body = body + b"-" + random.Random(n).randbytes(600).hex().encode()
                     wire = _encode_body(body, coded)
                     extra_hdr = extra_hdr + b"Content-Encoding: %s\r\n" % (b"gzip" if coded["enc"] == "gzip" else b"deflate")
+                    said = said + [(b"Content-Encoding", b"gzip" if coded["enc"] == "gzip" else b"deflate")]
                 if chunked:
                     head = line + marker + b"\r\nTransfer-Encoding: chunked\r\n" + extra_hdr + b"\r\n"
                     parts = [wire[:len(wire) // 2], wire[len(wire) // 2:]] if coded and len(wire) > 3 else [wire]
@@ -543,7 +641,7 @@ def _run(scn, ch, log, connector_mod, BaseConn):
                     fr = (b"Content-Length", b"%d" % dl)
                 # what exactly this message says, for the comparison with what the caller is given
                 msgs[n] = {"status": status, "reason": reason.decode(), "body": body, "size": len(head) + len(payload),
-                           "headers": [(b"X-M", marker[5:]), fr] + [tuple(h.split(b": ", 1)) for h in extra_hdr.split(b"\r\n") if h]}
+                           "headers": [(b"X-M", marker[5:]), fr] + said}
                 if coded:
                     msgs[n]["coded"] = coded["enc"] + (":" + coded["dmg"] if coded["dmg"] else "")
                     msgs[n]["damaged"] = bool(coded["dmg"])
@@ -614,6 +712,9 @@ def _run(scn, ch, log, connector_mod, BaseConn):
                                                  if opts.get("z") else None),
                                        "old": ({"ver": {"10": "1.0", "11": "1.1"}[opts["v"]], "conn": {"n": None, "ka": "ka", "cl": "close"}[opts["k"]],
                                                 "status": int(opts["s"]), "linger": int(opts["l"])} if opts.get("v") else None)}
+                        if cur["old"]:
+                            # (how the peer spells what it says: kept in the scenario, HTAB does not travel well in a URL)
+                            cur["old"]["sp"] = ((spelt.get(cur["rid"]) or {}).get("old") or {}).get("sp")
                         info["framed"].append(cur)
                         c.mode = "body"
                         if framing != "none":
@@ -736,8 +837,19 @@ def _run(scn, ch, log, connector_mod, BaseConn):
                         probes["answers_speaking_of_connection"] = probes.get("answers_speaking_of_connection", 0) + 1
                         st = {200: (200, b"OK"), 204: (204, b"No Content"), 304: (304, b"Not Modified")}[old["status"]]
                         extra = {None: b"", "ka": b"Connection: keep-alive\r\n", "close": b"Connection: close\r\n"}[old["conn"]]
+                        said = None
+                        if old.get("sp") and old["conn"]:
+                            # the same statement in another of the spellings the grammar allows
+                            probes["connection_field_spelt"] = probes.get("connection_field_spelt", 0) + 1
+                            flines = _connection_lines(old["conn"], old["sp"])
+                            extra = b"".join(fn + b":" + fv + b"\r\n" for fn, fv in flines)
+                            said = [(fn, fv.strip(b" \t")) for fn, fv in flines]
+                            if any(b"\t" in fv.strip(b" \t") for fn, fv in flines):
+                                probes["connection_field_htab_inside"] = probes.get("connection_field_htab_inside", 0) + 1
+                            if len(flines) > 1:
+                                probes["connection_field_two_lines"] = probes.get("connection_field_two_lines", 0) + 1
                         n, head, payload = self.respond(c, rid, "answer", extra_hdr=extra, status=st[0], reason=st[1],
-                                                        version=old["ver"].encode())
+                                                        version=old["ver"].encode(), said=said)
                         self.send(c, n, head + payload, rid, "answer")
                         if _announces_end(old):
                             # the peer is finished with this connection: it reads nothing more from it and closes it a
